@@ -13,7 +13,7 @@ CONSTANTS
   MaxDepth = 1024
   ExpAge = 3
   CasAge = 3
-  OpsEnabled = {"new", "new_many", "iter_next", "iter_end", "clone", "counted", "upgrade", "drop", "snap", "load", "store", "swap", "cas", "cas_tag", "downgrade", "wclone", "dropweak", "wsnap", "wsupgrade", "wload", "wstore", "wswap", "wcas", "wcas_tag", "pin", "collect"}
+  OpsEnabled = {"new", "new_many", "iter_next", "iter_end", "clone", "counted", "upgrade", "drop", "snap", "load", "store", "swap", "cas", "cas_tag", "downgrade", "wclone", "dropweak", "wsnap", "wsupgrade", "wload", "wstore", "wswap", "wcas", "wcas_tag", "pin", "collect", "reactivate"}
   Scen = "empty"
   Fix = {"pin", "inc", "mark", "stamp", "wmany", "newmany0"}
   Mut = {}
